@@ -7,7 +7,7 @@ import "regexp"
 
 // IncludeRegex matches an include processor line (##! include <value>).
 // The value is captured in group 1.
-var IncludeRegex = regexp.MustCompile(`##!>\s*include\s+(\S+)(?:\s*--\s*(.*?))?\s*$`)
+var IncludeRegex = regexp.MustCompile(`^##!>\s*include\s+(\S+)(?:\s*--\s*(.*?))?\s*$`)
 
 // IncludeExceptRegex matches an include-except processor line (##! include-except <value1> <value2>).
 // The first value is captured in group 1, the second in group 2.
